@@ -4,6 +4,7 @@ use vstd::prelude::*;
 use vstd::std_specs::cmp::*;
 use vstd::std_specs::convert::*;
 use std::cmp::{self, Ord, Ordering, PartialOrd};
+use std::num::ParseIntError;
 
 verus! {
 
